@@ -1,2 +1,272 @@
-(* Period: model definitions (stub, to be filled in). *)
-From Klog Require Import Base.Prelude.
+(* Period: klog/service/period/{period,day,week,month,quarter,year}.go. Definitions only.
+   A Week/Month/Quarter/Year value of the Go code is the date it was built from (a [cdate]).
+   Every loop of the Go code is a fuel-bounded recursion here (the bound is never reached on valid
+   dates: Proofs/Period.v); every Go panic is a [Crash]. *)
+From Klog Require Import Base.Prelude Model.Calendar.
+Open Scope Z_scope.
+
+Definition mk_date (y m d : Z) : cdate := {| c_year := y; c_month := m; c_day := d |}.
+
+(* klog.NewDate: civil.Date.IsValid and the 0000..9999 restriction of civil2Date *)
+Definition new_date (y m d : Z) : option cdate :=
+  if valid_ymd y m d then Some (mk_date y m d) else None.
+
+Definition period := (cdate * cdate)%type.   (* NewPeriod(since, until) *)
+
+Inductive kind := KWeek | KMonth | KQuarter | KYear.
+
+(* ---------------- bitMask ---------------- *)
+
+Record bitmask := { bm_value : Z; bm_consumed : Z }.
+Definition bm_new : bitmask := {| bm_value := 0; bm_consumed := 0 |}.
+
+Definition two32 : Z := 4294967296.
+(* uint32(x) for a Go int x *)
+Definition to_uint32 (x : Z) : Z := x mod two32.
+
+(* uint(math.Ceil(math.Log2(float64(maxValue)))) + 1 *)
+Definition max_bits (max_value : Z) : Z := Z.log2_up max_value + 1.
+
+(* bitMask.populate: value<<bitsConsumed is a uint32 shift (bits beyond 32 are dropped); panics
+   once more than 32 bits are consumed *)
+Definition bm_populate (b : bitmask) (value max_value : Z) : outcome bitmask :=
+  let v := Z.lor (bm_value b) ((Z.shiftl (to_uint32 value) (bm_consumed b)) mod two32) in
+  let c := bm_consumed b + max_bits max_value in
+  if 32 <? c then Crash CExplicitPanic else Ok {| bm_value := v; bm_consumed := c |}.
+
+Definition bm_result (b : outcome bitmask) : outcome Z :=
+  let* m := b in Ok (bm_value m).
+
+(* ---------------- Day ---------------- *)
+
+Definition day_hash (c : cdate) : outcome Z :=
+  bm_result (let* b := bm_populate bm_new (c_day c) 31 in
+             let* b := bm_populate b (c_month c) 12 in
+             bm_populate b (c_year c) 10000).
+
+(* ---------------- Week ---------------- *)
+
+(* for { if since.Weekday() == 1 { break }; since = since.PlusDays(-1) } *)
+Fixpoint week_since (fuel : nat) (c : cdate) : outcome cdate :=
+  if weekday c =? 1 then Ok c else
+  match fuel with
+  | O => Crash COutOfFuel
+  | S k => let* p := plus_days c (-1) in week_since k p
+  end.
+
+Fixpoint week_until (fuel : nat) (c : cdate) : outcome cdate :=
+  if weekday c =? 7 then Ok c else
+  match fuel with
+  | O => Crash COutOfFuel
+  | S k => let* p := plus_days c 1 in week_until k p
+  end.
+
+Definition week_period (c : cdate) : outcome period :=
+  let* s := week_since 7 c in
+  let* u := week_until 7 c in
+  Ok (s, u).
+
+Definition week_previous (c : cdate) : outcome cdate := plus_days c (-7).
+
+Definition week_hash (c : cdate) : outcome Z :=
+  let '(year, week) := iso_week c in
+  bm_result (let* b := bm_populate bm_new week 53 in bm_populate b year 10000).
+
+(* ---------------- Month ---------------- *)
+
+Definition is_last_date (c : cdate) : bool :=
+  (c_year c =? 9999) && (c_month c =? 12) && (c_day c =? 31).
+
+Fixpoint month_until (fuel : nat) (u : cdate) : outcome cdate :=
+  if is_last_date u then Ok u else
+  match fuel with
+  | O => Crash COutOfFuel
+  | S k =>
+    let* next := plus_days u 1 in
+    if negb (c_month next =? c_month u) then Ok u else month_until k next
+  end.
+
+(* NewDate errors are ignored by Month.Period; on a nil date the next method call panics.
+   Not reachable from a valid date. *)
+Definition month_period (c : cdate) : outcome period :=
+  match new_date (c_year c) (c_month c) 1, new_date (c_year c) (c_month c) 28 with
+  | Some since, Some u28 => let* u := month_until 4 u28 in Ok (since, u)
+  | _, _ => Crash CNilDeref
+  end.
+
+(* for { result = result.PlusDays(-25); if result.Month() != m.date.Month() { return } } *)
+Fixpoint month_prev_loop (fuel : nat) (m0 : Z) (r : cdate) : outcome cdate :=
+  match fuel with
+  | O => Crash COutOfFuel
+  | S k =>
+    let* r' := plus_days r (-25) in
+    if negb (c_month r' =? m0) then Ok r' else month_prev_loop k m0 r'
+  end.
+
+Definition month_previous (c : cdate) : outcome cdate := month_prev_loop 3 (c_month c) c.
+
+Definition month_hash (c : cdate) : outcome Z :=
+  bm_result (let* b := bm_populate bm_new (c_month c) 12 in bm_populate b (c_year c) 10000).
+
+(* ---------------- Quarter ---------------- *)
+
+Definition opt_period (a b : option cdate) : outcome period :=
+  match a, b with
+  | Some s, Some u => Ok (s, u)
+  | _, _ => Crash CNilDeref
+  end.
+
+Definition quarter_period (c : cdate) : outcome period :=
+  let y := c_year c in
+  let q := quarter c in
+  if q =? 1 then opt_period (new_date y 1 1) (new_date y 3 31)
+  else if q =? 2 then opt_period (new_date y 4 1) (new_date y 6 30)
+  else if q =? 3 then opt_period (new_date y 7 1) (new_date y 9 30)
+  else if q =? 4 then opt_period (new_date y 10 1) (new_date y 12 31)
+  else Crash CExplicitPanic.
+
+Fixpoint quarter_prev_loop (fuel : nat) (q0 : Z) (r : cdate) : outcome cdate :=
+  match fuel with
+  | O => Crash COutOfFuel
+  | S k =>
+    let* r' := plus_days r (-80) in
+    if negb (quarter r' =? q0) then Ok r' else quarter_prev_loop k q0 r'
+  end.
+
+Definition quarter_previous (c : cdate) : outcome cdate := quarter_prev_loop 3 (quarter c) c.
+
+Definition quarter_hash (c : cdate) : outcome Z :=
+  bm_result (let* b := bm_populate bm_new (quarter c) 4 in bm_populate b (c_year c) 10000).
+
+(* ---------------- Year ---------------- *)
+
+Definition year_period (c : cdate) : outcome period :=
+  opt_period (new_date (c_year c) 1 1) (new_date (c_year c) 12 31).
+
+Definition year_previous (c : cdate) : outcome cdate :=
+  match new_date (c_year c - 1) 1 1 with
+  | Some d => Ok d
+  | None => Crash CExplicitPanic
+  end.
+
+Definition year_hash (c : cdate) : outcome Z :=
+  bm_result (bm_populate bm_new (c_year c) 10000).
+
+(* ---------------- by kind ---------------- *)
+
+Definition period_of (k : kind) (c : cdate) : outcome period :=
+  match k with
+  | KWeek => week_period c | KMonth => month_period c
+  | KQuarter => quarter_period c | KYear => year_period c
+  end.
+
+Definition previous_of (k : kind) (c : cdate) : outcome cdate :=
+  match k with
+  | KWeek => week_previous c | KMonth => month_previous c
+  | KQuarter => quarter_previous c | KYear => year_previous c
+  end.
+
+Definition hash_of (k : kind) (c : cdate) : outcome Z :=
+  match k with
+  | KWeek => week_hash c | KMonth => month_hash c
+  | KQuarter => quarter_hash c | KYear => year_hash c
+  end.
+
+(* X.Previous().Period() *)
+Definition previous_period (k : kind) (c : cdate) : outcome period :=
+  let* p := previous_of k c in period_of k p.
+
+(* ---------------- period patterns ---------------- *)
+
+Definition ch_dash : N := 45.  Definition ch_Q : N := 81.  Definition ch_W : N := 87.
+
+(* the error values of the four constructors are all discarded by NewPeriodFromPatternString *)
+Definition EInvalidPeriod : error := EOther 15.
+
+(* ^\d{4}$ ; \d is ASCII-only in Go's regexp, $ is end of text *)
+Definition year_from_string (s : bytes) : outcome cdate :=
+  match s with
+  | [a; b; c; d] =>
+    if is_digit a && is_digit b && is_digit c && is_digit d then
+      match new_date (digits_val [a; b; c; d]) 1 1 with
+      | Some dt => Ok dt
+      | None => Err EInvalidPeriod
+      end
+    else Err EInvalidPeriod
+  | _ => Err EInvalidPeriod
+  end.
+
+(* ^\d{4}-\d{2}$ *)
+Definition month_from_string (s : bytes) : outcome cdate :=
+  match s with
+  | [a; b; c; d; h; m1; m2] =>
+    if is_digit a && is_digit b && is_digit c && is_digit d && (h =? ch_dash)%N
+       && is_digit m1 && is_digit m2 then
+      match new_date (digits_val [a; b; c; d]) (digits_val [m1; m2]) 1 with
+      | Some dt => Ok dt
+      | None => Err EInvalidPeriod
+      end
+    else Err EInvalidPeriod
+  | _ => Err EInvalidPeriod
+  end.
+
+(* ^\d{4}-Q\d$ *)
+Definition quarter_from_string (s : bytes) : outcome cdate :=
+  match s with
+  | [a; b; c; d; h; q; q1] =>
+    if is_digit a && is_digit b && is_digit c && is_digit d && (h =? ch_dash)%N
+       && (q =? ch_Q)%N && is_digit q1 then
+      let qu := digits_val [q1] in
+      if (qu <? 1) || (4 <? qu) then Err EInvalidPeriod else
+      match new_date (digits_val [a; b; c; d]) (qu * 3) 1 with
+      | Some dt => Ok dt
+      | None => Err EInvalidPeriod
+      end
+    else Err EInvalidPeriod
+  | _ => Err EInvalidPeriod
+  end.
+
+(* the body of NewWeekFromString once the regexp ^\d{4}-W\d{1,2}$ has matched *)
+Definition week_from_numbers (year week : Z) : outcome cdate :=
+  if week <? 1 then Err EInvalidPeriod else
+  match new_date year 7 1 with
+  | None => Err EInvalidPeriod
+  | Some ref0 =>
+    let* ref := week_since 7 ref0 in
+    let w := snd (iso_week ref) in
+    let* ref := plus_days ref ((week - w) * 7) in
+    if negb (snd (iso_week ref) =? week) then Err EInvalidPeriod   (* "prevent implicit roll over" *)
+    else Ok ref
+  end.
+
+Definition week_from_string (s : bytes) : outcome cdate :=
+  match s with
+  | [a; b; c; d; h; w; w1] =>
+    if is_digit a && is_digit b && is_digit c && is_digit d && (h =? ch_dash)%N
+       && (w =? ch_W)%N && is_digit w1
+    then week_from_numbers (digits_val [a; b; c; d]) (digits_val [w1])
+    else Err EInvalidPeriod
+  | [a; b; c; d; h; w; w1; w2] =>
+    if is_digit a && is_digit b && is_digit c && is_digit d && (h =? ch_dash)%N
+       && (w =? ch_W)%N && is_digit w1 && is_digit w2
+    then week_from_numbers (digits_val [a; b; c; d]) (digits_val [w1; w2])
+    else Err EInvalidPeriod
+  | _ => Err EInvalidPeriod
+  end.
+
+(* NewPeriodFromPatternString: the first constructor that returns no error decides; a panic inside a
+   constructor or inside Period() propagates *)
+Definition try_pattern (k : kind) (parse : bytes -> outcome cdate) (s : bytes)
+    (next : outcome period) : outcome period :=
+  match parse s with
+  | Ok d => period_of k d
+  | Err _ => next
+  | Crash c => Crash c
+  end.
+
+Definition period_from_pattern (s : bytes) : outcome period :=
+  try_pattern KYear year_from_string s
+  (try_pattern KMonth month_from_string s
+  (try_pattern KQuarter quarter_from_string s
+  (try_pattern KWeek week_from_string s
+  (Err EInvalidPeriod)))).
